@@ -6,6 +6,8 @@ import (
 	"fmt"
 	"go/types"
 	"os"
+	"regexp"
+	"strconv"
 	"strings"
 
 	"golang.org/x/tools/go/ssa"
@@ -411,6 +413,11 @@ func (x *Exec) evalBinary(st *State, fr *Frame, e EBinary, sc *scope) (Val, erro
 	l, err := x.evalSpec(st, fr, e.L, sc)
 	if err != nil {
 		return Val{}, err
+	}
+	if e.Op == "==>" && constFalse(l.T) {
+		// the antecedent is false on this path (typically a concrete call count): the consequent
+		// need not even be well-formed here (lastret of a call that did not happen)
+		return Val{T: TTrue}, nil
 	}
 	r, err := x.evalSpec(st, fr, e.R, sc)
 	if err != nil {
@@ -871,7 +878,8 @@ func (x *Exec) evalCall(st *State, fr *Frame, e ECall, sc *scope) (Val, error) {
 		// not statically known: when the function itself asserts this very value to exactly one
 		// concrete type, payload(x) is that assertion's result (the unboxing the code performs)
 		if args[0].T.Sort == SIface && fr != nil && fr.fn != nil {
-			var target types.Type
+			var target, anyTarget types.Type
+			anyMixed := false
 			for _, b := range fr.fn.Blocks {
 				for _, in := range b.Instrs {
 					ta, ok := in.(*ssa.TypeAssert)
@@ -880,6 +888,11 @@ func (x *Exec) evalCall(st *State, fr *Frame, e ECall, sc *scope) (Val, error) {
 					}
 					if _, isIface := ta.AssertedType.Underlying().(*types.Interface); isIface {
 						continue
+					}
+					if anyTarget == nil {
+						anyTarget = ta.AssertedType
+					} else if !types.Identical(anyTarget, ta.AssertedType) {
+						anyMixed = true
 					}
 					xv, bound := fr.env[ta.X]
 					if !bound || xv.T.S != args[0].T.S {
@@ -890,6 +903,11 @@ func (x *Exec) evalCall(st *State, fr *Frame, e ECall, sc *scope) (Val, error) {
 					}
 					target = ta.AssertedType
 				}
+			}
+			if target == nil && anyTarget != nil && !anyMixed {
+				// the value is not (yet) an operand of an assertion on this path, but every assertion
+				// to a concrete type in this function is to one and the same type
+				target = anyTarget
 			}
 			if target != nil {
 				tid := x.S.TypeID(target)
@@ -1169,4 +1187,32 @@ func quantPattern(body string, vars []string) string {
 		}
 	}
 	return strings.Join(out, " ")
+}
+
+var intCmpRe = regexp.MustCompile(`^\((=|<|<=|>|>=) (-?[0-9]+) (-?[0-9]+)\)$`)
+
+// constFalse: the term is the literal false or a comparison of two integer literals that is false.
+func constFalse(t Term) bool {
+	if t.S == "false" {
+		return true
+	}
+	m := intCmpRe.FindStringSubmatch(t.S)
+	if m == nil {
+		return false
+	}
+	a, _ := strconv.ParseInt(m[2], 10, 64)
+	b, _ := strconv.ParseInt(m[3], 10, 64)
+	switch m[1] {
+	case "=":
+		return a != b
+	case "<":
+		return !(a < b)
+	case "<=":
+		return !(a <= b)
+	case ">":
+		return !(a > b)
+	case ">=":
+		return !(a >= b)
+	}
+	return false
 }
